@@ -17,6 +17,7 @@ structure St where
   full : Store := []
   cur : Store := []
   removed : List Bytes := []
+  touched : Option Nat := none                 -- c14: version written to every stored node by the last `touch`
 
 def maxSize : Nat := 10 * 1024 * 1024
 
@@ -65,9 +66,10 @@ def sizesOf : Node → List Nat
     (s.length + 1) :: s
 
 /-- c14 `store` / `save`: root and every stored node of the trie -/
-def storeLine (t : Node) : String :=
+def storeLine (t : Node) (touched : Option Nat) : String :=
   let e := entries sha3 t []
-  "ok " ++ keyStr e.1 ++ " " ++ fmtEntries (e.2.map (fun x => (x.1, encode x.2)))
+  "ok " ++ keyStr e.1 ++ " " ++ fmtEntries (e.2.map (fun x =>
+    (x.1, encode (match touched with | some v => { x.2 with version := v } | none => x.2))))
 
 /-- c15mpt `dec` -/
 def decLine (bs : Bytes) : String :=
@@ -141,17 +143,18 @@ def step (s : St) (w : List String) : St × String :=
     match parsePath p, unhex b with
     | some p, some b =>
       let (t', o) := Trie.insert maxSize s.v s.t p b
-      ({ s with t := t', used := pathBytes p :: s.used }, outcome t' o)
+      ({ s with t := t', used := pathBytes p :: s.used, touched := none }, outcome t' o)
     | _, _ => (s, "bad-op")
   | ["del", p] =>
     match parsePath p with
     | some p =>
       let (t', o) := Trie.delete s.v s.t p
-      ({ s with t := t', used := pathBytes p :: s.used }, outcome t' o)
+      ({ s with t := t', used := pathBytes p :: s.used, touched := none }, outcome t' o)
     | none => (s, "bad-op")
   | ["layer"] => (s, "ok")
-  | ["store"] => (s, storeLine s.t)
-  | ["save"] => (s, storeLine s.t)
+  | ["touch", v] => ({ s with touched := some v.toNat! }, "ok")
+  | ["store"] => (s, storeLine s.t s.touched)
+  | ["save"] => (s, storeLine s.t none)
   | ["dec", b] =>
     match unhex b with
     | some bs => (s, decLine bs)
